@@ -51,7 +51,7 @@ Section Any.
   Variable cj : bytes.
   Hypothesis W : wf_event_json e.
   Hypothesis H2 : Forall2 (Forall2 escd) (e_tags e) tes.
-  Hypothesis Hcj : json_escape (e_content e) = Ok cj.
+  Hypothesis Hcj : escd (e_content e) cj.     (* cj: ANY spelling of the content *)
   (* the caller's buffer, cut at the fixed fields *)
   Variables x0 x4 x8 x16 x48 x80 F : bytes.
   Hypothesis L0 : len x0 = 4.
@@ -151,7 +151,7 @@ Section Any.
     event_member st (99 :: 111 :: 110 :: 116 :: 101 :: 110 :: 116 :: 34 :: 58 :: 34 :: ev ++ 34 :: rest)
     = Ok (mkEv (ev_out st) (ev_complete st) (ev_tags_size st) (Some (34 :: ev ++ 34 :: rest)), rest).
   Proof.
-    intros [Vs Es] Hts Hb. unfold event_member.
+    intros [Hun Hbu] Hts Hb. unfold event_member.
     set (txt := 99 :: 111 :: 110 :: 116 :: 101 :: 110 :: 116 :: 34 :: 58 :: 34 :: ev ++ 34 :: rest).
     replace (starts_with k_id txt) with false by reflexivity. replace (starts_with k_sig txt) with false by reflexivity.
     replace (starts_with k_kind txt) with false by reflexivity. replace (starts_with k_tags txt) with false by reflexivity.
@@ -160,7 +160,7 @@ Section Any.
     change (drop 8 (99 :: 111 :: 110 :: 116 :: 101 :: 110 :: 116 :: 34 :: 58 :: 34 :: ev ++ 34 :: rest)) with (58 :: 34 :: ev ++ 34 :: rest).
     rewrite eat_colon_ws_lit by reflexivity. cbn [bind]. rewrite Hts. change (0 =? 0) with true. cbv iota.
     cbn [verify_char]. change (34 =? 34) with true. cbv iota. cbn [bind].
-    rewrite (burn_string_escaped sv ev rest Vs Es). reflexivity.
+    rewrite (Hbu rest). reflexivity.
   Qed.
 
   (* the tags after the content: the remembered content is decoded behind them *)
@@ -284,7 +284,7 @@ Section Any.
       + (* the content came first *)
         destruct Es as [rest0 Hcs].
         eexists. split.
-        * apply (em_tags_late st x0 (bK p ++ [0; 0] ++ bC p ++ bI p ++ bP p ++ bS p) F (e_tags e) tes s cj rest0 K H2 Ft (conj Vc Hcj)).
+        * apply (em_tags_late st x0 (bK p ++ [0; 0] ++ bC p ++ bI p ++ bP p ++ bS p) F (e_tags e) tes s cj rest0 K H2 Ft Hcj).
           -- exact Hcap.
           -- rewrite Ec. unfold bits. rewrite Hk, Ex. exact Hb.
           -- rewrite Eo. unfold buf. unfold b0, bT. rewrite Ew, Hk. rewrite <- !app_assoc. reflexivity.
@@ -313,7 +313,7 @@ Section Any.
       destruct (p KTags) eqn:Ett.
       + (* the tags are in place *)
         eexists. split.
-        * apply (em_content st s cj x0 (bK p ++ [0; 0] ++ bC p ++ bI p ++ bP p ++ bS p ++ enc_tags (e_tags e)) (drop tsz F) K (conj Vc Hcj) L0).
+        * apply (em_content st s cj x0 (bK p ++ [0; 0] ++ bC p ++ bI p ++ bP p ++ bS p ++ enc_tags (e_tags e)) (drop tsz F) K Hcj L0).
           -- rewrite Et. lens; rewrite ?L0, ?len_enc_tags; unfold tsz, s; lia.
           -- rewrite len_drop. unfold tsz, s. lia.
           -- rewrite Et. unfold tsz, s. pose proof (tags_size_ge4 (e_tags e)). lia.
@@ -326,7 +326,7 @@ Section Any.
           -- unfold mark. cbn [ekey_eqb]. rewrite Ett. discriminate.
       + (* the tags are still to come: remember where the content starts *)
         eexists. split.
-        * apply (em_content_early st s cj K (conj Vc Hcj)).
+        * apply (em_content_early st s cj K Hcj).
           -- rewrite Et. reflexivity.
           -- rewrite Ec. unfold bits. rewrite Hk, Ett. exact Hb.
         * refine (conj _ (conj _ (conj _ _))); cbn [ev_out ev_complete ev_tags_size ev_content_start].
@@ -721,7 +721,7 @@ Proof.
   assert (Etxt : txt = 123 :: 34 :: mbody e tes cj k (mclose e tes cj r tail)).
   { subst txt. cbn [event_text]. rewrite (jmember_mbody e tj cj tes Htxt), (jclose_mclose e tj cj tes Htxt). reflexivity. }
   rewrite Etxt at 1. rewrite (eat_ws_nonws 123) by reflexivity. cbn [verify_char]. change (123 =? 123) with true. cbv iota. cbn [bind].
-  destruct (members_any_order e tes cj W H2 Hcj x0 x4 x8 x16 x48 x80 F L0 L4 L8 L16 L48 L80 ltac:(lia) k r (length txt - 6) tail Hnd (fun k' => Hall k'))
+  destruct (members_any_order e tes cj W H2 (escd0_escd _ _ (conj Vc Hcj)) x0 x4 x8 x16 x48 x80 F L0 L4 L8 L16 L48 L80 ltac:(lia) k r (length txt - 6) tail Hnd (fun k' => Hall k'))
     as [st' [Hl [Ec Eo]]].
   replace (Datatypes.S (length txt)) with (Datatypes.S (length r) + (length txt - 6))%nat by lia.
   rewrite Hl. cbn [bind]. rewrite Ec. change (127 =? 127) with true. cbv iota. rewrite Eo.
@@ -819,7 +819,7 @@ Proof.
   assert (Etxt : txt = 123 :: 34 :: embody e tes cj k (uclose e tes cj r tail)).
   { subst txt. cbn [event_text_u]. rewrite (jbody_embody e tj cj tes Htxt), (juclose_uclose e tj cj tes Htxt). reflexivity. }
   rewrite Etxt at 1. rewrite (eat_ws_nonws 123) by reflexivity. cbn [verify_char]. change (123 =? 123) with true. cbv iota. cbn [bind].
-  destruct (members_any_order_u e tes cj W H2 Hcj x0 x4 x8 x16 x48 x80 F L0 L4 L8 L16 L48 L80 ltac:(lia) k r (length txt - length r) tail Hok Hnd (fun k' => Hall k'))
+  destruct (members_any_order_u e tes cj W H2 (escd0_escd _ _ (conj Vc Hcj)) x0 x4 x8 x16 x48 x80 F L0 L4 L8 L16 L48 L80 ltac:(lia) k r (length txt - length r) tail Hok Hnd (fun k' => Hall k'))
     as [st' [Hl [Ec Eo]]].
   replace (Datatypes.S (length txt)) with (Datatypes.S (length r) + (length txt - length r))%nat by lia.
   rewrite Hl. cbn [bind]. rewrite Ec. change (127 =? 127) with true. cbv iota. rewrite Eo.
@@ -944,7 +944,7 @@ Proof.
   { subst txt. cbn [event_text_w]. rewrite (jbody_ws_embody e tj cj tes Htxt), (jwclose_wclose e tj cj tes Htxt). reflexivity. }
   rewrite Etxt at 1. rewrite (eat_ws_app w0 123) by (try assumption; reflexivity).
   cbn [verify_char]. change (123 =? 123) with true. cbv iota. cbn [bind].
-  destruct (members_any_order_w e tes cj W H2 Hcj x0 x4 x8 x16 x48 x80 F L0 L4 L8 L16 L48 L80 ltac:(lia) x r (length txt - length r) tail Hok Hnd (fun k' => Hall k'))
+  destruct (members_any_order_w e tes cj W H2 (escd0_escd _ _ (conj Vc Hcj)) x0 x4 x8 x16 x48 x80 F L0 L4 L8 L16 L48 L80 ltac:(lia) x r (length txt - length r) tail Hok Hnd (fun k' => Hall k'))
     as [st' [Hl [Ec Eo]]].
   replace (Datatypes.S (length txt)) with (Datatypes.S (length r) + (length txt - length r))%nat by lia.
   rewrite Hl. cbn [bind]. rewrite Ec. change (127 =? 127) with true. cbv iota. rewrite Eo.
@@ -980,6 +980,130 @@ Corollary event_ws_independent e tj cj w0 ms tail w0' ms' tail' out :
   exists c c', event_from_json (event_text_w e tj cj w0 ms tail) out = Ok (c, enc_event e, enc_event e ++ drop (event_size e) out) /\
                event_from_json (event_text_w e tj cj w0' ms' tail') out = Ok (c', enc_event e, enc_event e ++ drop (event_size e) out).
 Proof. intros. eexists _, _. split; apply event_any_order_ws; assumption. Qed.
+
+(* ====================== any spelling of the strings ====================== *)
+(* the text of an event whose tag strings are spelled [tes] and whose content is spelled [cj] - ANY spellings in the
+   relation escd (Spelling.v: literal characters, two-character escapes, \uXXXX in either case, mixed freely) -
+   with the members in any order, unknown members, and white space between the tokens of the object *)
+Definition event_text_s (e : aevent) (tes : list (list bytes)) (cj : bytes) (w0 : bytes) (ms : list wm) (tail : bytes) : bytes :=
+  match ms with
+  | [] => w0 ++ 123 :: 125 :: tail
+  | x :: r => w0 ++ 123 :: wm_a x ++ 34 :: embody_ws e tes cj (wm_m x) (wm_b x) (wm_c x) (wm_d x ++ wclose e tes cj r tail)
+  end.
+
+Lemma strs_text_len es : forall tail, (length tail <= length (strs_text es tail))%nat.
+Proof.
+  induction es as [|e0 r0 IH0]; intros tl0; cbn [strs_text]; [lia|]. destruct r0.
+  - rewrite app_length. cbn [length]. lia.
+  - rewrite app_length. cbn [length]. specialize (IH0 tl0). lia.
+Qed.
+Lemma tag_text_len es tail : (length tail <= length (tag_text es tail))%nat.
+Proof. destruct es; cbn [tag_text length]; [lia|]. pose proof (strs_text_len (b :: es) tail). lia. Qed.
+Lemma tags_text_len tes : forall tail, (length tail <= length (tags_text tes tail))%nat.
+Proof.
+  induction tes as [|es r IH]; intros tail; cbn [tags_text]; [lia|]. destruct r as [|es1 r1].
+  - pose proof (tag_text_len es (93 :: tail)). cbn [length] in *. lia.
+  - pose proof (tag_text_len es (44 :: 91 :: tags_text (es1 :: r1) tail)). specialize (IH tail). cbn [length] in *. lia.
+Qed.
+Lemma tags_body_len tes tail : (length tail <= length (tags_body tes tail))%nat.
+Proof. destruct tes; cbn [tags_body length]; [lia|]. pose proof (tags_text_len (l :: tes) tail). lia. Qed.
+
+Section TextS.
+  Variable e : aevent.
+  Variable tes : list (list bytes).
+  Variable cj : bytes.
+  Hypothesis Lid : len (e_id e) = 32.
+  Hypothesis Lpk : len (e_pk e) = 32.
+  Hypothesis Lsg : len (e_sig e) = 64.
+
+  Lemma embody_ws_length m wb wc K : (kwm m + length K <= length (embody_ws e tes cj m wb wc K))%nat.
+  Proof.
+    assert (A : length (e_id e) = 32%nat) by (unfold len in Lid; lia).
+    assert (B : length (e_pk e) = 32%nat) by (unfold len in Lpk; lia).
+    assert (C : length (e_sig e) = 64%nat) by (unfold len in Lsg; lia).
+    destruct m as [k|key v]; cbn [embody_ws kwm].
+    - pose proof (tags_body_len tes K) as T.
+      destruct k; cbn [kname vtext kw]; repeat (first [rewrite app_length | rewrite length_write_hex | progress (cbn [length])]); lia.
+    - rewrite !app_length. cbn [length]. rewrite !app_length. cbn [length]. rewrite !app_length. lia.
+  Qed.
+  Lemma wclose_length ms tail : (list_sum (map kwm (map wm_m ms)) + length tail <= length (wclose e tes cj ms tail))%nat /\
+                                (length ms <= length (wclose e tes cj ms tail))%nat.
+  Proof.
+    unfold list_sum. induction ms as [|x r [IH1 IH2]]; cbn [wclose map fold_right length]; [split; lia|].
+    pose proof (embody_ws_length (wm_m x) (wm_b x) (wm_c x) (wm_d x ++ wclose e tes cj r tail)) as H.
+    rewrite !app_length in *. cbn [length]. split; lia.
+  Qed.
+End TextS.
+
+Theorem event_any_spelling e tes cj w0 ms tail out :
+  wf_event_json e -> Forall2 (Forall2 escd) (e_tags e) tes -> escd (e_content e) cj ->
+  wsb w0 -> Forall wm_ok ms -> NoDup (known (map wm_m ms)) -> (forall k, In k (known (map wm_m ms))) -> event_size e <= len out ->
+  event_from_json (event_text_s e tes cj w0 ms tail) out
+  = Ok (len (event_text_s e tes cj w0 ms tail) - len tail, enc_event e, enc_event e ++ drop (event_size e) out).
+Proof.
+  intros W H2 Hcj Hw0 Hok Hnd Hall Hcap.
+  pose proof W as (Wid & Lid & Wpk & Lpk & Wsg & Lsg & Hk & Hc & Vt & Ft & Vc & Hsz).
+  pose proof (tags_size_ge4 (e_tags e)) as Hts4. unfold event_size in Hcap, Hsz.
+  assert (Hperm : Permutation (known (map wm_m ms)) all_keys).
+  { apply NoDup_Permutation; [exact Hnd|repeat constructor; cbn; intuition discriminate|].
+    intros k. split; [intros _; destruct k; cbn; auto 8|intros _; apply Hall]. }
+  destruct ms as [|x r]; [exfalso; exact (Hall KId)|].
+  set (txt := event_text_s e tes cj w0 (x :: r) tail).
+  assert (Hlen : (256 + length tail <= length txt)%nat /\ (length r <= length txt)%nat).
+  { subst txt. cbn [event_text_s]. rewrite app_length. cbn [length]. rewrite app_length. cbn [length].
+    pose proof (embody_ws_length e tes cj Lid Lpk Lsg (wm_m x) (wm_b x) (wm_c x) (wm_d x ++ wclose e tes cj r tail)) as H1.
+    pose proof (wclose_length e tes cj Lid Lpk Lsg r tail) as [H2' H3'].
+    pose proof (list_sum_perm _ _ (Permutation_map kw Hperm)) as Hs. unfold list_sum in *. cbn [map fold_right all_keys kw] in Hs.
+    pose proof (kwm_known (map wm_m (x :: r))) as Hkk. unfold list_sum in Hkk. cbn [map fold_right] in Hkk. rewrite Hkk in Hs.
+    rewrite app_length in H1. lia. }
+  destruct Hlen as [Hlen Hr6].
+  destruct (split_blocks out ltac:(lia)) as (x0 & x4 & x6 & x8 & x16 & x48 & x80 & F & Eout & L0 & L4 & L6 & L8 & L16 & L48 & L80 & EF).
+  assert (LF : len F = len out - 144) by (rewrite EF; apply len_drop).
+  unfold event_from_json, parse_json_event.
+  replace (len txt <? 204) with false by (symmetry; apply N.ltb_ge; unfold len; lia).
+  replace (len out <? 152) with false by (symmetry; apply N.ltb_ge; lia).
+  rewrite Eout at 1.
+  replace (x0 ++ x4 ++ x6 ++ x8 ++ x16 ++ x48 ++ x80 ++ F) with ((x0 ++ x4) ++ x6 ++ (x8 ++ x16 ++ x48 ++ x80 ++ F)) by (rewrite <- !app_assoc; reflexivity).
+  rewrite (put_raw_at (x0 ++ x4) x6 [0; 0] _ 6) by (rewrite ?len_app; change (len [0; 0]) with 2; lia). cbn [bind].
+  replace ((x0 ++ x4) ++ [0; 0] ++ x8 ++ x16 ++ x48 ++ x80 ++ F) with (x0 ++ x4 ++ [0; 0] ++ x8 ++ x16 ++ x48 ++ x80 ++ F) by (rewrite <- !app_assoc; reflexivity).
+  assert (Etxt : txt = w0 ++ 123 :: wm_a x ++ 34 :: embody_ws e tes cj (wm_m x) (wm_b x) (wm_c x) (wm_d x ++ wclose e tes cj r tail)) by reflexivity.
+  rewrite Etxt at 1. rewrite (eat_ws_app w0 123) by (try assumption; reflexivity).
+  cbn [verify_char]. change (123 =? 123) with true. cbv iota. cbn [bind].
+  destruct (members_any_order_w e tes cj W H2 Hcj x0 x4 x8 x16 x48 x80 F L0 L4 L8 L16 L48 L80 ltac:(lia) x r (length txt - length r) tail Hok Hnd (fun k' => Hall k'))
+    as [st' [Hl [Ec Eo]]].
+  replace (Datatypes.S (length txt)) with (Datatypes.S (length r) + (length txt - length r))%nat by lia.
+  rewrite Hl. cbn [bind]. rewrite Ec. change (127 =? 127) with true. cbv iota. rewrite Eo.
+  set (total := 144 + tags_size (e_tags e) + 4 + len (e_content e)).
+  rewrite (rd32_le32 total) by (subst total; lia).
+  assert (Eenc : le32 total ++ le16 (e_kind e) ++ [0; 0] ++ le64 (e_created e) ++ e_id e ++ e_pk e ++ e_sig e ++
+                 enc_tags (e_tags e) ++ le32 (len (e_content e)) ++ e_content e ++ drop (4 + len (e_content e)) (drop (tags_size (e_tags e)) F)
+                 = enc_event e ++ drop (event_size e) out).
+  { replace (drop (4 + len (e_content e)) (drop (tags_size (e_tags e)) F)) with (drop (event_size e) out)
+      by (rewrite EF, !drop_drop; f_equal; unfold event_size; lia).
+    unfold enc_event. rewrite <- ?app_assoc. reflexivity. }
+  rewrite Eenc.
+  assert (Lenc : len (enc_event e ++ drop (event_size e) out) = len out).
+  { rewrite len_app, len_drop. unfold enc_event. rewrite !len_app, len_le32, len_le16, len_le64, len_enc_tags, len_le32, Lid, Lpk, Lsg.
+    change (len [0; 0]) with 2. unfold event_size. lia. }
+  assert (Ltot : total = len (enc_event e)).
+  { unfold enc_event. rewrite !len_app, len_le32, len_le16, len_le64, len_enc_tags, len_le32, Lid, Lpk, Lsg. change (len [0; 0]) with 2. subst total. lia. }
+  rewrite Ltot. cbn [bind].
+  replace (len (enc_event e ++ drop (event_size e) out) <? len (enc_event e)) with false by (symmetry; apply N.ltb_ge; rewrite Lenc, <- Ltot; subst total; lia).
+  rewrite take_app_len. reflexivity.
+Qed.
+
+(* canonicity: ANY two texts of one event - differing in the spelling of every tag string and of the content, in member
+   order, unknown members and white space between the tokens of the object - parse to byte-identical binary events *)
+Corollary event_spelling_independent e tes cj w0 ms tail tes' cj' w0' ms' tail' out :
+  wf_event_json e ->
+  Forall2 (Forall2 escd) (e_tags e) tes -> escd (e_content e) cj ->
+  wsb w0 -> Forall wm_ok ms -> NoDup (known (map wm_m ms)) -> (forall k, In k (known (map wm_m ms))) ->
+  Forall2 (Forall2 escd) (e_tags e) tes' -> escd (e_content e) cj' ->
+  wsb w0' -> Forall wm_ok ms' -> NoDup (known (map wm_m ms')) -> (forall k, In k (known (map wm_m ms'))) ->
+  event_size e <= len out ->
+  exists c c', event_from_json (event_text_s e tes cj w0 ms tail) out = Ok (c, enc_event e, enc_event e ++ drop (event_size e) out) /\
+               event_from_json (event_text_s e tes' cj' w0' ms' tail') out = Ok (c', enc_event e, enc_event e ++ drop (event_size e) out).
+Proof. intros. eexists _, _. split; apply event_any_spelling; assumption. Qed.
 
 (* order independence: two texts with the seven members in different orders give the same bytes *)
 Corollary event_order_independent e tj cj ms ms' tail tail' out :
